@@ -1191,8 +1191,7 @@ def Interlude (ctx : Nat) : Nat → List Op → Prop
   | refs, .copyHandle :: rest => Interlude ctx (refs + 1) rest
   | refs, .dropHandle :: rest => 2 ≤ refs ∧ Interlude ctx (refs - 1) rest
   | refs, .destroyCtx c :: rest => c ≠ ctx ∧ Interlude ctx refs rest
-  | _, .thenOp _ _ :: _ => False
-  | _, .finish _ :: _ => False
+  | _, _ :: _ => False
 
 theorem run_append (a b : List Op) : ∀ (s : St),
     C13.run s (a ++ b) = ((C13.run (C13.run s a).1 b).1, (C13.run s a).2 ++ (C13.run (C13.run s a).1 b).2) := by
@@ -1232,8 +1231,6 @@ theorem quiet_run (quiet : List Op) : ∀ {s : St} {c : Cont}, Waiting s c → I
     simp only [C13.run]
     have hr := h.refs
     cases op with
-    | thenOp x y => exact absurd hq (by simp [Interlude])
-    | finish v => exact absurd hq (by simp [Interlude])
     | copyHandle =>
       simp only [Interlude] at hq
       have hcore : C13.stepCore s .copyHandle = ({ s with refs := s.refs + 1 }, []) := by
@@ -1280,6 +1277,7 @@ theorem quiet_run (quiet : List Op) : ∀ {s : St} {c : Cont}, Waiting s c → I
         rw [step_fst, hcore]; exact hq.2
       obtain ⟨h2, e2⟩ := ih hw hq'
       exact ⟨h2, by rw [step_snd_of_refs hrefs, hcore, e2]; rfl⟩
+    | _ => exact absurd hq (by simp [Interlude])
 
 /-- the chain's continuation runs when the source is finished after any quiet interlude -/
 theorem runs_at_finish {s : St} {ctx : Nat} (quiet post : List Op) (v : Nat)
